@@ -109,6 +109,8 @@ type caseDesc struct {
 	Member string   `json:"member,omitempty"`
 	Path   string   `json:"path,omitempty"`
 	Op     string   `json:"op,omitempty"`
+	Exec   string   `json:"exec,omitempty"` // shared-site cells: class executing the trait method
+	Step   int      `json:"step,omitempty"` // ... as the Step-th execution of that source location
 	Bound  string   `json:"boundary,omitempty"`
 	Type   string   `json:"type,omitempty"`
 	Val    string   `json:"value,omitempty"`
@@ -176,9 +178,12 @@ func cnFor(seed int64) func(string) string {
 }
 
 // evalVisCell runs one cell alone (try form, then bare form if it was denied).
-func evalVisCell(st *stats, sh *shapeDef, s site, c cell, seed int64) (clause, detail, script string, o obsCell) {
+// pre: the earlier executions of the same shared site (trait cells), run before the cell in the
+// same script.
+func evalVisCell(st *stats, sh *shapeDef, s site, pre []cell, c cell, seed int64) (clause, detail, script string, o obsCell) {
+	group := append(append([]cell{}, pre...), c)
 	cn := cnFor(seed)
-	script = visScript(sh, s, []cell{c}, cn, false)
+	script = visScript(sh, s, group, cn, false)
 	res := st.run(script)
 	obs, _ := parseCells(res.Out)
 	o = obs[c.ID]
@@ -188,14 +193,14 @@ func evalVisCell(st *stats, sh *shapeDef, s site, c cell, seed int64) (clause, d
 	clause = judge(sh, s, &c, o)
 	if clause == "crash" {
 		// a Go panic converted by try: the bare form names the frame
-		bres := st.run(visScript(sh, s, []cell{c}, cn, true))
+		bres := st.run(visScript(sh, s, group, cn, true))
 		if bres.Kind == "panic" {
 			return "crash", bres.PanicKey, script, o
 		}
 		return "crash", "caught-panic:" + runner.PanicClass(o.Msg), script, o
 	}
 	if clause == "" && o.Status == "denied" {
-		bres := st.run(visScript(sh, s, []cell{c}, cn, true))
+		bres := st.run(visScript(sh, s, group, cn, true))
 		if cl, k := bareVerdict(bres); cl != "" {
 			return cl, k, script, o
 		}
@@ -240,13 +245,26 @@ func visWorker(w *pool.W, arg json.RawMessage) {
 	}
 	// public controls: (recv,path,op,category) -> conforming
 	control := map[string]bool{}
-	ck := func(c *cell) string { return c.M.tag() + "|" + c.Recv + "|" + c.Path + "|" + c.Op }
+	ck := func(c *cell) string { return fmt.Sprint(c.M.tag(), "|", c.Recv, "|", c.Path, "|", c.Op, "|", c.Exec, "|", c.Step) }
+	// earlier executions of the same shared site
+	preOf := func(c *cell) []cell {
+		if s.kind != "trait" {
+			return nil
+		}
+		var pre []cell
+		for _, x := range cells {
+			if x.Base == c.Base && x.Step < c.Step {
+				pre = append(pre, x)
+			}
+		}
+		return pre
+	}
 	for i := range cells {
 		c := &cells[i]
 		if c.M.mod == "public" {
 			o := obs[c.ID]
 			if !o.Present {
-				_, _, _, o = evalVisCell(st, sh, s, *c, a.Seed)
+				_, _, _, o = evalVisCell(st, sh, s, preOf(c), *c, a.Seed)
 				obs[c.ID] = o
 			}
 			control[ck(c)] = judge(sh, s, c, o) == ""
@@ -257,7 +275,7 @@ func visWorker(w *pool.W, arg json.RawMessage) {
 		c := &cells[i]
 		st.cells++
 		o := obs[c.ID]
-		exp := allowed(sh, c.M.mod, s.lex)
+		exp := allowed(sh, c.M.mod, lexOf(s, c))
 		if c.M.mod == "public" {
 			if !control[ck(c)] {
 				st.counters["path-unsupported:"+c.M.tag()+":"+c.Path+":"+c.Op]++
@@ -285,7 +303,7 @@ func visWorker(w *pool.W, arg json.RawMessage) {
 		if !needIso {
 			continue
 		}
-		icl, det, iscript, io := evalVisCell(st, sh, s, *c, a.Seed)
+		icl, det, iscript, io := evalVisCell(st, sh, s, preOf(c), *c, a.Seed)
 		if icl == "wrong-allow" && control[ck(c)] {
 			st.counters["denywrong|"+tk]++
 		}
@@ -308,8 +326,12 @@ func visWorker(w *pool.W, arg json.RawMessage) {
 			sz /= 2
 		}
 		ss := s
-		cs := caseDesc{Family: "vis", Seed: a.Seed, Shape: sh.name, Site: &ss, SiteS: s.String(), Recv: c.Recv, Member: c.M.name, Path: c.Path, Op: c.Op, Script: iscript, Expect: exp}
-		detail := fmt.Sprintf("site %s (lexical class %s: %s w.r.t. the declaring class), %s %s member %s, receiver %s, `%s`\nexpected %s by the rule table; %s", s, orNone(s.lex), relation(sh, s.lex), c.M.mod, c.M.tag(), c.M.name, c.Recv, c.Body, exp, obsString(io))
+		cs := caseDesc{Family: "vis", Seed: a.Seed, Shape: sh.name, Site: &ss, SiteS: s.String(), Recv: c.Recv, Member: c.M.name, Path: c.Path, Op: c.Op, Exec: c.Exec, Step: c.Step, Script: iscript, Expect: exp}
+		detail := fmt.Sprintf("site %s (lexical class %s: %s w.r.t. the declaring class), %s %s member %s, receiver %s, `%s`\nexpected %s by the rule table; %s", s, orNone(lexOf(s, c)), relation(sh, lexOf(s, c)), c.M.mod, c.M.tag(), c.M.name, c.Recv, c.Body, exp, obsString(io))
+		if s.kind == "trait" {
+			_, seq := traitUsers(sh)
+			detail += fmt.Sprintf("\nshared source location: the access is one trait method, executed in this script by %v in that order; this is execution #%d, by class %s", seq, c.Step+1, c.Exec)
+		}
 		if icl == "crash" {
 			key := "crash:" + det
 			if !failed[key] {
@@ -318,7 +340,7 @@ func visWorker(w *pool.W, arg json.RawMessage) {
 			}
 			continue
 		}
-		vf := visFail{Tag: c.M.tag(), Fam: pathFamily(c.Path), Op: c.Op, Mod: c.M.mod, Rel: relClass(relation(sh, s.lex)), Clause: icl}
+		vf := visFail{Tag: c.M.tag(), Fam: pathFamily(c.Path), Op: c.Op, Mod: c.M.mod, Rel: relClass(relation(sh, lexOf(s, c))), Clause: icl}
 		k := fmt.Sprint(vf)
 		if failed[k] {
 			continue
@@ -462,26 +484,34 @@ func evalInst(st *stats, k instKind, p instPath, seed int64) (clause, detail, sc
 		return "crash", res.PanicKey, script
 	}
 	obs, _ := parseCells(res.Out)
-	o := obs[0]
-	detail = "observed " + obsString(o)
-	if o.Panic {
-		return "crash", "caught:" + trunc(o.Msg, 80), script
-	}
-	if k.abs {
-		// must not yield an object: a catchable error at `new`, or an error for the whole script
-		if o.Status == "ok" {
-			return "instantiated", detail, script
+	bareDone := false
+	for a := 0; a < attempts; a++ {
+		o := obs[a]
+		retry := ""
+		if a > 0 {
+			retry = "-on-retry" // the first attempt conformed, a later one in the same script does not
 		}
-		if o.Status == "denied" {
-			bres := st.run(instScript(k, p, x, true))
-			if cl, key := bareVerdict(bres); cl != "" {
-				return cl, key, script
+		detail = fmt.Sprintf("attempt %d of %d in one script: observed %s", a+1, attempts, obsString(o))
+		if o.Panic {
+			return "crash", "caught:" + trunc(o.Msg, 80), script
+		}
+		if k.abs {
+			// must not yield an object: a catchable error at `new`, or an error for the whole script
+			if o.Status == "ok" {
+				return "instantiated" + retry, detail, script
 			}
+			if o.Status == "denied" && !bareDone {
+				bareDone = true
+				bres := st.run(instScript(k, p, x, true))
+				if cl, key := bareVerdict(bres); cl != "" {
+					return cl, key, script
+				}
+			}
+			continue
 		}
-		return "", detail, script
-	}
-	if o.Status != "ok" || o.Val != "object:"+x {
-		return "control-not-instantiable", detail, script
+		if o.Status != "ok" || o.Val != "object:"+x {
+			return "control-not-instantiable" + retry, detail, script
+		}
 	}
 	return "", detail, script
 }
@@ -523,39 +553,46 @@ func evalChain(st *stats, c chainCfg, idx int, seed int64) (clause, detail, scri
 	}
 	exp := chainExpect(c, pfx, idx)
 	obs, _ := parseCells(res.Out)
-	o, seen := obs[idx]
-	detail = fmt.Sprintf("expected %s; run kind=%s %s observed %s", exp, res.Kind, trunc(res.Msg, 120), obsString(o))
-	if o.Panic {
-		return "crash", "caught:" + trunc(o.Msg, 80), script
-	}
-	scriptErr := !seen && (res.Kind == "throw" || res.Kind == "parse") // rejected at declaration
-	switch {
-	case exp == "open":
-		return "", detail, script
-	case exp == "deny":
-		if strings.Contains(o.Pre, "<inst>") {
-			// `new` returned an object; a later failure of the method call does not count
-			return "instantiated", detail, script
+	bareDone := false
+	for a := 0; a < attempts; a++ {
+		o, seen := obs[idx*10+a]
+		retry := ""
+		if a > 0 {
+			retry = "-on-retry"
 		}
-		if scriptErr || o.Status == "denied" {
-			if o.Status == "denied" {
-				bres := st.run(chainScript(c, pfx, only, true))
-				if cl, key := bareVerdict(bres); cl != "" {
-					return cl, key, script
-				}
+		detail = fmt.Sprintf("attempt %d of %d in one script; expected %s; run kind=%s %s observed %s", a+1, attempts, exp, res.Kind, trunc(res.Msg, 120), obsString(o))
+		if o.Panic {
+			return "crash", "caught:" + trunc(o.Msg, 80), script
+		}
+		scriptErr := !seen && (res.Kind == "throw" || res.Kind == "parse") // rejected at declaration
+		switch {
+		case exp == "open":
+		case exp == "deny":
+			if strings.Contains(o.Pre, "<inst>") {
+				// `new` returned an object; a later failure of the method call does not count
+				return "instantiated" + retry, detail, script
 			}
-			return "", detail, script
+			if scriptErr || o.Status == "denied" {
+				if o.Status == "denied" && !bareDone {
+					bareDone = true
+					bres := st.run(chainScript(c, pfx, only, true))
+					if cl, key := bareVerdict(bres); cl != "" {
+						return cl, key, script
+					}
+				}
+				continue
+			}
+			return "instantiated" + retry, detail, script
+		default:
+			if scriptErr || o.Status != "ok" {
+				return "complete-class-rejected" + retry, detail, script
+			}
+			if "ok:"+o.Val != exp {
+				return "wrong-dispatch" + retry, detail, script
+			}
 		}
-		return "instantiated", detail, script
-	default:
-		if scriptErr || o.Status != "ok" {
-			return "complete-class-rejected", detail, script
-		}
-		if "ok:"+o.Val != exp {
-			return "wrong-dispatch", detail, script
-		}
-		return "", detail, script
 	}
+	return "", detail, script
 }
 
 func chainKey(c chainCfg, idx int, clause string) string {
@@ -572,6 +609,10 @@ func chainKey(c chainCfg, idx int, clause string) string {
 	kind := "concrete"
 	if abs {
 		kind = "abstract"
+	}
+	if strings.HasSuffix(clause, "-on-retry") {
+		// order-dependent answers do not depend on where the abstract methods come from
+		return fmt.Sprintf("chain:%s:%s-%s", clause, kind, cls)
 	}
 	return fmt.Sprintf("chain:%s:%s-%s:methods-from-%s", clause, kind, cls, c.Src)
 }
@@ -974,10 +1015,19 @@ func replay(c *ev.Check) {
 		sh := shapeByName(cs.Shape)
 		cn := cnFor(cs.Seed)
 		var found *cell
-		for _, cc := range cellsOf(sh, *cs.Site, cn) {
-			if cc.Recv == cs.Recv && cc.M.name == cs.Member && cc.Path == cs.Path && cc.Op == cs.Op {
+		var pre []cell
+		all := cellsOf(sh, *cs.Site, cn)
+		for _, cc := range all {
+			if cc.Recv == cs.Recv && cc.M.name == cs.Member && cc.Path == cs.Path && cc.Op == cs.Op && cc.Exec == cs.Exec && cc.Step == cs.Step {
 				x := cc
 				found = &x
+			}
+		}
+		if found != nil && cs.Site.kind == "trait" {
+			for _, cc := range all {
+				if cc.Base == found.Base && cc.Step < found.Step {
+					pre = append(pre, cc)
+				}
 			}
 		}
 		if found == nil {
@@ -985,7 +1035,7 @@ func replay(c *ev.Check) {
 			os.Exit(2)
 		}
 		var script string
-		cl, det, script, _ = evalVisCell(st, sh, *cs.Site, *found, cs.Seed)
+		cl, det, script, _ = evalVisCell(st, sh, *cs.Site, pre, *found, cs.Seed)
 		fmt.Println(script)
 		if cl != "" && cl != "crash" {
 			k := visKey(sh, *cs.Site, found, cl)
